@@ -2,6 +2,7 @@ package main
 
 import (
 	"fmt"
+	"go/constant"
 	"go/token"
 	"go/types"
 	"regexp"
@@ -126,6 +127,25 @@ func (f *Frame) call(c *ssa.CallCommon, instr ssa.Value, st *State, reach string
 		args = append(args, f.val(a, st))
 	}
 	resT := instr.Type()
+	if fn := c.StaticCallee(); fn != nil {
+		switch fn.String() {
+		case "fmt.Sprintf":
+			if v, ok := f.sprintf(c, args, instr.Name()); ok {
+				return v
+			}
+		case "github.com/cosmos/cosmos-sdk/types.NewCoins":
+			if len(args) == 1 && args[0].Elems != nil {
+				g.useTheory("coins")
+				g.trusted["github.com/cosmos/cosmos-sdk/types.NewCoins"] = true
+				cur := "Coins_empty"
+				for _, e := range args[0].Elems {
+					f.nopanic("NewCoins:amount_nonnegative", reach, fmt.Sprintf("(>= (T_sdk_Coin_Amount %s) 0)", e.Term), pos)
+					cur = fmt.Sprintf("(Coins_add %s (Coins_one (T_sdk_Coin_Denom %s) (T_sdk_Coin_Amount %s)))", cur, e.Term, e.Term)
+				}
+				return Val{Sort: "Coins", Term: g.def(f.name(instr), "Coins", cur), GoT: resT}
+			}
+		}
+	}
 	if c.IsInvoke() {
 		ct, key := g.lookupInvokeContract(c)
 		if ct != nil {
@@ -616,4 +636,113 @@ func (f *Frame) havocSpecTarget(m string, env *Env, st *State) {
 	default:
 		g.fail("unsupported modifies target %q", m)
 	}
+}
+
+// sprintf models fmt.Sprintf with a constant format: in abstract string mode
+// an uninterpreted function of the format and the arguments (functional
+// consistency only), in concrete mode the concatenation it denotes.
+func (f *Frame) sprintf(c *ssa.CallCommon, args []Val, rname string) (Val, bool) {
+	g := f.g
+	fc, ok := c.Args[0].(*ssa.Const)
+	if !ok || fc.Value == nil {
+		return Val{}, false
+	}
+	format := constantString(fc)
+	var elems []Val
+	if len(args) > 1 {
+		if args[1].Elems == nil {
+			return Val{}, false
+		}
+		for _, e := range args[1].Elems {
+			switch {
+			case len(e.Tuple) == 1:
+				elems = append(elems, e.Tuple[0])
+			case e.Term != "" && e.Sort != "Iface":
+				elems = append(elems, e)
+			default:
+				return Val{}, false
+			}
+		}
+	}
+	if g.concrete {
+		var parts []string
+		i, k := 0, 0
+		lit := ""
+		flush := func() {
+			if lit != "" {
+				parts = append(parts, strLit(lit))
+				lit = ""
+			}
+		}
+		for i < len(format) {
+			ch := format[i]
+			if ch != '%' {
+				lit += string(ch)
+				i++
+				continue
+			}
+			if i+1 >= len(format) {
+				return Val{}, false
+			}
+			verb := format[i+1]
+			i += 2
+			if verb == '%' {
+				lit += "%"
+				continue
+			}
+			if k >= len(elems) {
+				return Val{}, false
+			}
+			a := elems[k]
+			k++
+			flush()
+			switch {
+			case verb == 's' && a.Sort == "Str", verb == 'v' && a.Sort == "Str":
+				parts = append(parts, a.Term)
+			case (verb == 'd' || verb == 'v') && a.Sort == "Int":
+				g.useTheory("strings")
+				parts = append(parts, fmt.Sprintf("(itoa %s)", a.Term))
+			case verb == 'x' && a.Sort == "Str":
+				g.useTheory("strings")
+				parts = append(parts, fmt.Sprintf("(hexenc %s)", a.Term))
+			default:
+				return Val{}, false
+			}
+		}
+		flush()
+		if k != len(elems) {
+			return Val{}, false
+		}
+		term := strLit("")
+		switch len(parts) {
+		case 0:
+		case 1:
+			term = parts[0]
+		default:
+			term = "(str.++ " + strings.Join(parts, " ") + ")"
+		}
+		return Val{Sort: "Str", Term: g.def(f.prefix+rname, "Str", term), GoT: types.Typ[types.String]}, true
+	}
+	var sorts, terms []string
+	for _, e := range elems {
+		if e.Term == "" {
+			return Val{}, false
+		}
+		sorts = append(sorts, e.Sort)
+		terms = append(terms, e.Term)
+	}
+	name := g.uf("sprintf_"+mangle(format), sorts, "Str")
+	term := name
+	if len(terms) > 0 {
+		term = fmt.Sprintf("(%s %s)", name, strings.Join(terms, " "))
+	}
+	g.assumes["fmt.Sprintf with a constant format is a function of its arguments (uninterpreted in abstract string mode)"] = true
+	return Val{Sort: "Str", Term: g.def(f.prefix+rname, "Str", term), GoT: types.Typ[types.String]}, true
+}
+
+func constantString(c *ssa.Const) string {
+	if c.Value != nil && c.Value.Kind() == constant.String {
+		return constant.StringVal(c.Value)
+	}
+	return ""
 }
